@@ -993,6 +993,18 @@ func clip(b []byte) []byte {
 // command re-sent after ASK), C04 (role / owner of the key's slot, handshake first).
 func (r *simRun) checkBackends() {
 	r.checkRedirects()
+	// C10: the order guarantee rests on the configured number of connections per node
+	open := map[string]int{}
+	for _, b := range r.backends {
+		if !b.closed && b.peer.vc.Opened() {
+			open[b.peer.addr]++
+		}
+	}
+	for addr, n := range open {
+		if n > r.cfg.conns {
+			r.fail("C10: %d connections are open to node %s, %d per node are configured: one client's pipeline is spread over them and can be reordered", n, addr, r.cfg.conns)
+		}
+	}
 	for j, b := range r.backends {
 		last := map[int]int{}
 		// C04 handshake
